@@ -53,10 +53,12 @@ Definition bzero (m : Z -> Z) (dst n : Z) : Z -> Z :=
   fun x => if (dst <=? x) && (x <? dst + n) then 0 else m x.
 
 Definition arena_alloc (c : acfg) (s : astate) (size : Z) : option (astate * Z) :=
+  if size =? 0 then Some (s, 0)
+  else
   let base := a_base c in
   let offset := w64 (align_forward (w64 (base + a_curr s)) (a_align c) - base) in
   let next_offset := w64 (offset + size) in
-  if next_offset >? a_size c then Some (s, 0)
+  if (next_offset >? a_size c) || (next_offset <? offset) then Some (s, 0)
   else if offset <? a_size c                      (* bounds check of &self.buffer[offset] *)
        then Some (mkastate offset next_offset (a_bytes s), base + offset)
        else None.
@@ -81,7 +83,7 @@ Definition arena_realloc (c : acfg) (s : astate) (p newsize oldsize : Z) : optio
     let offset := w64 (p - a_base c) in
     if offset =? a_prev s then
       let next_offset := w64 (offset + newsize) in
-      if next_offset >? a_size c then Some (s, 0)
+      if (next_offset >? a_size c) || (next_offset <? offset) then Some (s, 0)
       else Some (mkastate (a_prev s) next_offset (a_bytes s), p)
     else if newsize >? oldsize then
       match arena_alloc c s newsize with
@@ -127,7 +129,7 @@ Definition stack_alloc (c : scfg) (s : sstate) (size : Z) : sstate * Z :=
     let addr := align_forward (w64 (w64 (base + s_curr s) + STACK_HEADER_SIZE)) (s_align c) in
     let offset := w64 (addr - base) in
     let next_offset := w64 (offset + size) in
-    if next_offset >? s_size c then (s, 0)
+    if (next_offset >? s_size c) || (next_offset <? offset) then (s, 0)
     else
       let h := w64 (addr - STACK_HEADER_SIZE) in
       let m1 := mset (s_mem s) h (s_prev s mod two32) in
@@ -156,7 +158,7 @@ Definition stack_realloc (c : scfg) (s : sstate) (p newsize oldsize : Z) : optio
     let offset := w64 (p - s_base c) in
     if offset =? s_prev s then
       let next_offset := w64 (offset + newsize) in
-      if next_offset >? s_size c then Some (s, 0)
+      if (next_offset >? s_size c) || (next_offset <? offset) then Some (s, 0)
       else Some (mksstate (s_prev s) next_offset (s_mem s), p)
     else if newsize >? oldsize then Some (s, 0)
     else Some (s, p)
@@ -207,7 +209,7 @@ Definition pool_dealloc (c : pcfg) (s : pstate) (p : Z) : option pstate :=
   else None.
 
 Definition pool_deallocall (c : pcfg) (s : pstate) : pstate :=
-  pool_link_free_nodes c (mkpstate (p_initialized s) 0 (p_mem s)).
+  pool_link_free_nodes c (mkpstate true 0 (p_mem s)).
 
 Definition pool_realloc (c : pcfg) (s : pstate) (p newsize oldsize : Z) : option (pstate * Z) :=
   if p =? 0 then Some (pool_alloc c s newsize)
